@@ -60,6 +60,24 @@ def cases(rng, tier, Case):
         for script in ("+CW;P%s;-x;-X;P%s", "+C;+x;+X;P%s;-X;-x;P%s", "+CWs;P%s;-X;P%s;-x;P%s", "+W;+C;-x;-X;P%s"):
             docs = tuple(hx(rng.choice(["warm *up* <i>x</i>", h])) for _ in range(script.count("%s") - 1)) + (hx(h + "\n\n" + wrap(rng, h)),)
             res.append(Case("hist 100 R %s" % (script % docs), "history", {"cfg": "hist", "src": hx(h), "hist": 1}, compare=False))
+    # every character reference whose value holds a character that is special in HTML (also as the first of two code
+    # points: &nvlt; &nvgt; -- seed C03-7), in text, alt text, titles, headings and code-free containers
+    import lib as _lib, re as _re
+    special = []
+    tpath = os.path.join(_lib.COQ, "gen", "Tables.v")
+    if os.path.exists(tpath):
+        txt = open(tpath).read()
+        m = _re.search(r"Definition entity_table .*?:= \[(.*?)\]\.\nDefinition", txt, _re.S)
+        if m:
+            for em in _re.finditer(r"\(\[([0-9; ]*)\], \[([0-9; ]*)\]\)", m.group(1)):
+                val = [int(x) for x in em.group(2).split(";") if x.strip()]
+                if any(v in (60, 62, 38, 34, 39) for v in val):
+                    special.append(bytes(int(x) for x in em.group(1).split(";")).decode())
+    special += ["&#60;", "&#x3c;", "&#62;", "&#34;", "&#38;", "&#39;", "&#x3C;script&#x3E;"]
+    for r in special:
+        for d in ("a %s b" % r, "![x %s y](u \"t %s\")" % (r, r), "# h %s" % r, "> - *e %s*\n\n[l %s](<u%s> '%s')" % (r, r, r, r), "%sscript%s" % (r, r), "```%s\n```" % r):
+            cfg = rng.choice(["Cs", "CsS", mdgen.gen_cfg(rng, forbid="xX")])
+            res.append(Case("parse %s 100 TR %s" % (cfg, hx(d)), "entity", {"cfg": cfg, "src": hx(d)}))
     # escape_html unit correspondence
     for s in ["", "&", "<", ">", "\"", "'", "&amp;", "a<b>c\"d&e'f", "\0", "é<", " "] + [chr(c) for c in range(1, 128)]:
         res.append(Case("esc %s" % hx(s), "esc", {"esc": hx(s)}))
